@@ -10,6 +10,7 @@ import Rare.Proofs.C17Atoi
 import Rare.Proofs.C11Arity
 import Rare.Proofs.C11Percent
 import Rare.Proofs.C11CaseIdem
+import Rare.Proofs.C11CaseIdemStr
 /-!
 # C11 — scalar helper functions follow their documented semantics
 
@@ -1154,6 +1155,33 @@ theorem rune_case_idempotent (r : Nat) :
 example : Case.toUpperR (Case.toLowerR 0x130) = 0x49 ∧ Case.toUpperR 0x130 = 0x130 ∧
     Case.toLowerR (Case.toUpperR 0x17F) = 0x73 ∧ Case.toLowerR 0x17F = 0x17F ∧
     Case.toUpperR (Case.toUpperR 0x1C6) = 0x1C4 ∧ Case.toUpperR 0x1C5 = 0x1C4 := by decide +kernel
+
+/-- **`{upper}` / `{lower}` are idempotent on EVERY value** (session 6; all byte strings: non-ASCII text, ill-formed
+    UTF-8, values whose image leaves or enters ASCII such as `ſıx` ↦ `SIX`): `strings.ToUpper (strings.ToUpper s)`
+    = `strings.ToUpper s`, likewise `ToLower`.  Lifts `rune_case_idempotent` through `strings.Map` by the UTF-8
+    round trip (a rune `AppendRune` cannot write becomes U+FFFD, which both tables fix) and joins the ASCII fast
+    path by `goMap_ascii` (on ASCII text the table and the byte shift agree). -/
+theorem upper_lower_idempotent (s : Bytes) :
+    Case.goToUpper (Case.goToUpper s) = Case.goToUpper s ∧ Case.goToLower (Case.goToLower s) = Case.goToLower s :=
+  ⟨Case.goToUpper_idem s, Case.goToLower_idem s⟩
+
+/-- The same at the level of a call: `{upper {upper a}}` = `{upper a}` for every argument and context. -/
+theorem upper_lower_call_idempotent (c : Ctx) (a : Arg) :
+    Case.goToUpper (Case.goToUpper (a.val c)) = Case.goToUpper (a.val c) ∧
+    callHelper (Case.caseHelperU Case.goToUpper) [a] c = .ok (Case.goToUpper (a.val c)) ∧
+    Case.goToLower (Case.goToLower (a.val c)) = Case.goToLower (a.val c) ∧
+    callHelper (Case.caseHelperU Case.goToLower) [a] c = .ok (Case.goToLower (a.val c)) :=
+  ⟨Case.goToUpper_idem _, (upper_lower_call c a).1, Case.goToLower_idem _, (upper_lower_call c a).2⟩
+
+/-- `strings.Map` with either table is idempotent by itself (the non-ASCII path of both helpers). -/
+theorem case_map_idempotent (lower : Bool) (s : Bytes) :
+    Case.goMap (Case.toRune lower) (Case.goMap (Case.toRune lower) s) = Case.goMap (Case.toRune lower) s :=
+  Case.goMap_case_idem lower s
+
+/-- non-vacuity: a value that leaves ASCII-free text for ASCII (`ſıx`), and an ill-formed one (lone 0xFF, 0xC3). -/
+example : Case.goToUpper [0xC5, 0xBF, 0xC4, 0xB1, 0x78] = [0x53, 0x49, 0x58] ∧
+    Case.goToUpper [0x53, 0x49, 0x58] = [0x53, 0x49, 0x58] ∧
+    Case.goToLower [0xFF, 0x41, 0xC3] = [0xEF, 0xBF, 0xBD, 0x61, 0xEF, 0xBF, 0xBD] := by decide +kernel
 
 /-- **C11 × C13**: the sorters' model takes `unicode.ToLower` as a parameter and assumes the contract
     `C13.RuneLower` (checked there by correspondence only).  The table-driven `toLowerR` – tied to Go's table by
